@@ -539,6 +539,8 @@ def _trace_distance_rules(ctx, repo):
                     return False
                 if s_.endswith('.unitary'):
                     return np.array(_u, dtype=complex)
+                if s_.endswith('has_unitary'):
+                    return True
                 if s_.endswith('trace_distance_from_angle_list'):
                     return _true_trace_distance(list(np.asarray(it.ev(call.args[0]), dtype=float)))
                 if s_.endswith('trace_distance_bound'):
